@@ -126,6 +126,8 @@ func byzOrchCatalogue(e common.Env) []ocase {
 		add(kind+" N=3 vouchers-without-payload", []uint16{1, 2, 3}, nil, sign, map[uint16]*byzPlan{1: {WithholdPayloadFrom: map[uint16]bool{3: true}, ReflectAcks: true}}, nil, []uint16{1}, nil, lim3, 0)
 		add(kind+" N=3 honest-broadcast resend+reflect", []uint16{1, 2, 3}, nil, sign, map[uint16]*byzPlan{1: {ReflectAcks: true, ReflectTwice: true, ResendPayloads: 2}}, nil, []uint16{1, 2}, nil, e.Pick(3000, 20000), smp)
 		add(kind+" N=3 both-versions-to-everyone", []uint16{1, 2, 3}, nil, sign, map[uint16]*byzPlan{1: {ReflectAcks: true}}, nil, []uint16{1}, map[uint16]int{1: 2}, lim3, smp)
+		add(kind+" N=3 both-versions-in-opposite-orders", []uint16{1, 2, 3}, nil, sign, map[uint16]*byzPlan{1: {ReverseVersionsFor: map[uint16]bool{3: true}}}, nil, []uint16{1}, map[uint16]int{1: 2}, lim3, smp)
+		add(kind+" N=4 both-versions-in-opposite-orders+reflect", []uint16{1, 2, 3, 4}, nil, sign, map[uint16]*byzPlan{1: {ReverseVersionsFor: map[uint16]bool{3: true}, ReflectAcks: true}}, nil, []uint16{1}, map[uint16]int{1: 2}, lim4, smp)
 		// N=4 with an accomplice (node 4 is a mute reflector), honest 2,3
 		add(kind+" N=4 equivocate+accomplice-reflector", []uint16{1, 2, 3, 4}, nil, sign,
 			map[uint16]*byzPlan{1: {RouteVersion: map[uint8][]uint16{1: {2}, 2: {3}}, ReflectAcks: true}, 4: {ReflectAcks: true, Mute: true}}, nil, []uint16{1}, map[uint16]int{1: 2}, lim4, smp)
